@@ -593,6 +593,100 @@ fn replay_structs(_case: &Value, env: &Env) -> CaseResult {
     }
 }
 
+/// The type predicate itself (`ArgumentType::is_valid`), for generated type
+/// terms (the eight base types, typed arrays and unions nested up to three
+/// levels) against every class of value, with an independent reading of the
+/// same rule: a typed array accepts an array all of whose elements are accepted
+/// (the empty array included), a union accepts what one of its members accepts.
+fn argument_types(src: &mut Src, st: &mut Stats, _env: &Env) -> CaseResult {
+    use jmespath::functions::ArgumentType as A;
+    #[derive(Clone, Debug)]
+    enum T {
+        Any,
+        Null,
+        Str,
+        Num,
+        Bool,
+        Obj,
+        Arr,
+        Expref,
+        Typed(Box<T>),
+        Union(Vec<T>),
+    }
+    fn gen_t(src: &mut Src, d: usize) -> T {
+        match src.below(if d >= 3 { 8 } else { 10 }) {
+            0 => T::Any,
+            1 => T::Null,
+            2 => T::Str,
+            3 => T::Num,
+            4 => T::Bool,
+            5 => T::Obj,
+            6 => T::Arr,
+            7 => T::Expref,
+            8 => T::Typed(Box::new(gen_t(src, d + 1))),
+            _ => T::Union((0..src.below(4)).map(|_| gen_t(src, d + 1)).collect()),
+        }
+    }
+    fn to_a(t: &T) -> A {
+        match t {
+            T::Any => A::Any,
+            T::Null => A::Null,
+            T::Str => A::String,
+            T::Num => A::Number,
+            T::Bool => A::Bool,
+            T::Obj => A::Object,
+            T::Arr => A::Array,
+            T::Expref => A::Expref,
+            T::Typed(x) => A::TypedArray(Box::new(to_a(x))),
+            T::Union(xs) => A::Union(xs.iter().map(to_a).collect()),
+        }
+    }
+    fn accepts(t: &T, v: &jmespath::Variable) -> bool {
+        use jmespath::Variable as V;
+        match t {
+            T::Any => true,
+            T::Null => matches!(v, V::Null),
+            T::Str => matches!(v, V::String(_)),
+            T::Num => matches!(v, V::Number(_)),
+            T::Bool => matches!(v, V::Bool(_)),
+            T::Obj => matches!(v, V::Object(_)),
+            T::Arr => matches!(v, V::Array(_)),
+            T::Expref => matches!(v, V::Expref(_)),
+            T::Typed(x) => match v {
+                V::Array(a) => a.iter().all(|e| accepts(x, e)),
+                _ => false,
+            },
+            T::Union(xs) => xs.iter().any(|x| accepts(x, v)),
+        }
+    }
+    let t = gen_t(src, 0);
+    let values = [
+        "null", "true", "1", "-0.5", "\"s\"", "\"\"", "[]", "[1]", "[1, 2.5]", "[\"a\"]", "[1, \"a\"]", "[null]", "[[1], [2]]", "[[1], [\"a\"]]", "[[], [1]]", "[[[1]]]", "{}", "{\"a\": 1}", "[{}]", "[true, false]",
+        "[1, [2]]", "[[\"a\"], \"b\"]", "[[]]",
+    ];
+    let at = to_a(&t);
+    st.eval();
+    for vt in values {
+        let v = jmespath::Variable::from_json(vt).unwrap();
+        let rv = jmespath::Rcvar::new(v.clone());
+        let (got, want) = (at.is_valid(&rv), accepts(&t, &v));
+        if got != want {
+            return Err(Failure::new("argument-types", "type-predicate-wrong", format!("{:?} is_valid({}) = {} expected {}", t, vt, got, want), json!({"type": format!("{:?}", t), "value": vt})));
+        }
+    }
+    // an expression reference as a value
+    let ex = jmespath::Variable::Expref(jmespath::parse("a").unwrap());
+    let rex = jmespath::Rcvar::new(ex.clone());
+    if at.is_valid(&rex) != accepts(&t, &ex) {
+        return Err(Failure::new("argument-types", "type-predicate-wrong", format!("{:?} is_valid(&a) = {} expected {}", t, at.is_valid(&rex), accepts(&t, &ex)), json!({"type": format!("{:?}", t), "value": "&a"})));
+    }
+    let nested = matches!(t, T::Typed(_) | T::Union(_));
+    if nested && st.nontrivial(&format!("{:?}", t)) {
+        st.sample(|| json!({"type": format!("{:?}", t)}));
+    }
+    Ok(())
+}
+
 fn replay_cell(case: &Value, _env: &Env) -> CaseResult {
     let mut st = Stats::new();
     check_cell("table", case["expression"].as_str().unwrap_or(""), case["document"].as_str().unwrap_or("null"), &mut st)
@@ -612,6 +706,7 @@ pub fn property() -> Property {
             Sub::Custom(CustomSub { name: "table", run: table, replay: replay_cell }),
             Sub::Custom(CustomSub { name: "wide-arity", run: wide_arity, replay: replay_wide }),
             Sub::Custom(CustomSub { name: "builtin-structs", run: builtin_structs, replay: replay_structs }),
+            Sub::Bytes(BytesSub { name: "argument-types", f: argument_types, max_len: 64, quick: Budget { threads: 4, cases: 5000 }, thorough: Budget { threads: 16, cases: 100_000 }, keep_unreproducible: false }),
             Sub::Bytes(BytesSub { name: "well-typed", f: well_typed, max_len: 1500, quick: Budget { threads: 8, cases: 16000 }, thorough: Budget { threads: 16, cases: 150_000 }, keep_unreproducible: false }),
             Sub::Bytes(BytesSub { name: "call-sequences", f: call_sequences, max_len: 2000, quick: Budget { threads: 8, cases: 10000 }, thorough: Budget { threads: 16, cases: 100_000 }, keep_unreproducible: false }),
         ],
